@@ -665,3 +665,154 @@ Proof.
         -- unfold gen_of. rewrite get_set_same; [simpl; rewrite app_nil_r; reflexivity|].
            rewrite (shapes_length _ _ S1). exact L.
 Qed.
+
+(* ---- one observation -------------------------------------------------------------------- *)
+Lemma resolve_lt h t : h <> [] -> (resolve h t < length h)%nat.
+Proof.
+  intro H. unfold resolve. destruct (Nat.ltb t (length h)) eqn:E; [apply Nat.ltb_lt; exact E|].
+  destruct h; [congruence|simpl; lia].
+Qed.
+
+Lemma cursor_at c : Cursor (next (S c) c) (gen_of c) (fun h => abs h c) (goodc c) Rh.
+Proof. apply heap_cursor, next_ok. lia. Qed.
+
+Lemma fuel_enough h c : (length (abs h c) < loop_fuel h)%nat.
+Proof. unfold loop_fuel. pose proof (abs_le_total h c). lia. Qed.
+
+(* what `step` guarantees about the heap it returns *)
+Definition frame (h : heap) (c : nat) (h' : heap) : Prop :=
+  wf h' /\ (length h <= length h')%nat /\
+  (forall c', (c' < length h)%nat -> abs h' c' = abs h c') /\
+  (forall c', (length h <= c' < length h')%nat -> abs h' c' = abs h c).
+
+Lemma frame_R h c h' : wf h -> Rh h h' -> frame h c h'.
+Proof.
+  intros W [S A]. pose proof (shapes_length _ _ S) as HL. split; [eapply wf_shapes; eauto|].
+  split; [lia|]. split; [intros; apply A|]. intros c' H. lia.
+Qed.
+
+Ltac finish W L :=
+  let h' := fresh "h'" in let E := fresh "E" in let R := fresh "R" in
+  destruct L as (h' & E & R); rewrite E; cbn [ret fst snd];
+  split; [reflexivity|apply frame_R; [exact W|first [exact R|exact (proj1 R)]]].
+
+Opaque next.
+Lemma step_ok h o : wf h -> h <> [] -> op_ok o = true ->
+  let c := resolve h (target o) in
+  mask (what o) (fst (step h o)) = spec (what o) (abs h c) /\ frame h c (snd (step h o)).
+Proof.
+  intros W Hne Hok c. pose proof (resolve_lt h (target o) Hne) as Hc. fold c in Hc.
+  pose proof (cursor_at c) as Cc. assert (goodc c h) as G by (split; assumption).
+  pose proof (fuel_enough h c) as Hf.
+  unfold step. fold c. unfold op_ok in Hok.
+  destruct (what o) as [i|a b s| | | |x|l|l|x| | | |i| ] eqn:Ew; unfold mask, spec.
+  - (* index *)
+    destruct (i <? 0) eqn:Ei.
+    + finish W (index_neg_ok _ _ _ _ _ _ Cc _ i h G Hf).
+    + finish W (index_nonneg_ok _ _ _ _ _ _ Cc i h G ltac:(lia)).
+  - (* slice *)
+    assert (s <> Some 0) as Hs by (intro E; subst s; simpl in Hok; discriminate).
+    finish W (getitem_slice_ok _ _ _ _ _ _ Cc _ a b s h G Hf Hs).
+  - finish W (len_ok _ _ _ _ _ _ Cc _ h G Hf).
+  - finish W (iterate_ok _ _ _ _ _ _ Cc _ h G Hf).
+  - finish W (truth_ok _ _ _ _ _ _ Cc h G).
+  - finish W (contains_ok _ _ _ _ _ _ Cc _ x h G Hf).
+  - finish W (eq_list_ok _ _ _ _ _ _ Cc _ l h G Hf).
+  - (* == LazyList(l): the other list lives in a heap of its own *)
+    assert (goodc 0 [Root [] l]) as G0 by (split; simpl; [tauto|lia]).
+    destruct (listify_ok _ _ _ _ _ _ (cursor_at 0) (S (length l)) [Root [] l] G0) as (h0 & E0 & _).
+    { simpl. lia. }
+    rewrite E0. simpl abs. finish W (eq_list_ok _ _ _ _ _ _ Cc _ l h G Hf).
+  - finish W (count_ok _ _ _ _ _ _ Cc _ x h G Hf).
+  - finish W (reversed_ok _ _ _ _ _ _ Cc _ h G Hf).
+  - (* deep_copy *)
+    simpl. split; [reflexivity|]. unfold deep_copy. split; [simpl; split; [exact Hc|exact W]|].
+    split; [simpl; lia|]. split.
+    + intros c' H. simpl. destruct (Nat.eqb c' (length h)) eqn:E; [apply Nat.eqb_eq in E; lia|reflexivity].
+    + intros c' H. simpl in H. simpl. assert (c' = length h) as -> by lia.
+      rewrite Nat.eqb_refl. reflexivity.
+  - finish W (listify_ok _ _ _ _ _ _ Cc _ h G Hf).
+  - finish W (has_ind_ok _ _ _ _ _ _ Cc i h G).
+  - (* next *)
+    destruct (next_ok (S c) c ltac:(lia) h G) as (r & h' & E & R & _). rewrite E.
+    destruct r; simpl; (split; [reflexivity|apply frame_R; assumption]).
+Qed.
+
+(* the value of next(L): the first item not yet in the cache *)
+Lemma next_value h o : wf h -> h <> [] -> what o = KNext ->
+  let c := resolve h (target o) in
+  fst (step h o) = match nth_error (abs h c) (length (gen_of c h)) with Some v => OZ v | None => OStop end.
+Proof.
+  intros W Hne Ew c. pose proof (resolve_lt h (target o) Hne) as Hc. fold c in Hc.
+  assert (goodc c h) as G by (split; assumption).
+  unfold step. fold c. rewrite Ew.
+  destruct (next_ok (S c) c ltac:(lia) h G) as (r & h' & E & _ & Hr & _). rewrite E, <- Hr.
+  destruct r; reflexivity.
+Qed.
+
+Transparent next.
+
+(* ---- histories ----------------------------------------------------------------------------- *)
+Definition denotes (src : list Z) (h : heap) : Prop :=
+  wf h /\ h <> [] /\ forall c, (c < length h)%nat -> abs h c = src.
+
+Lemma step_denotes src h o : denotes src h -> op_ok o = true ->
+  mask (what o) (fst (step h o)) = spec (what o) src /\ denotes src (snd (step h o)).
+Proof.
+  intros (W & Hne & D) Hok. destruct (step_ok h o W Hne Hok) as (Hout & W' & HL & Hold & Hnew).
+  pose proof (resolve_lt h (target o) Hne) as Hc. rewrite (D _ Hc) in *.
+  split; [exact Hout|]. split; [exact W'|]. split.
+  - intro E. rewrite E in HL. destruct h; [congruence|simpl in HL; lia].
+  - intros c Hlt. destruct (Nat.lt_ge_cases c (length h)) as [H|H].
+    + rewrite Hold by exact H. apply D. exact H.
+    + apply Hnew. lia.
+Qed.
+
+Lemma run_ok src : forall ops h, denotes src h -> Forall (fun o => op_ok o = true) ops ->
+  masked ops (fst (run h ops)) = map (fun o => spec (what o) src) ops /\ denotes src (snd (run h ops)).
+Proof.
+  induction ops as [|o ops IH]; intros h D F; simpl; [split; [reflexivity|exact D]|].
+  inversion F as [|? ? Ho Fr]; subst.
+  destruct (step_denotes src h o D Ho) as (Hout & D').
+  destruct (step h o) as [x h1] eqn:Es. simpl in Hout, D'.
+  destruct (IH h1 D' Fr) as (Houts & D'').
+  destruct (run h1 ops) as [xs h2] eqn:Er. simpl in *. split; [|exact D''].
+  rewrite Hout, Houts. reflexivity.
+Qed.
+
+Lemma init_denotes src : denotes src (init src).
+Proof.
+  unfold init. split; [simpl; tauto|]. split; [discriminate|].
+  intros c H. simpl in *. assert (c = O) as -> by lia. reflexivity.
+Qed.
+
+Lemma all_histories src ops : Forall (fun o => op_ok o = true) ops ->
+  masked ops (fst (run (init src) ops)) = map (fun o => spec (what o) src) ops.
+Proof. intro F. apply (run_ok src ops (init src) (init_denotes src) F). Qed.
+
+Lemma denotation_kept src ops : Forall (fun o => op_ok o = true) ops ->
+  forall c, (c < length (snd (run (init src) ops)))%nat -> abs (snd (run (init src) ops)) c = src.
+Proof. intro F. apply (run_ok src ops (init src) (init_denotes src) F). Qed.
+
+(* ---- non-vacuity: a history with copies, slices counted from the end, next ------------- *)
+Definition ex_src : list Z := [2; 0; 1].
+Definition ex_ops : list op :=
+  [ {| target := 0; what := KIndex 1 |}; {| target := 0; what := KCopy |};
+    {| target := 0; what := KNext |}; {| target := 1; what := KSlice (Some (-2)) None None |};
+    {| target := 1; what := KCopy |}; {| target := 2; what := KIndex 4 |};
+    {| target := 0; what := KSlice (Some 0) (Some 5) (Some 2) |}; {| target := 2; what := KReversed |};
+    {| target := 1; what := KBool |}; {| target := 0; what := KLen |}; {| target := 2; what := KIndex (-4) |} ].
+
+Lemma example_history :
+  Forall (fun o => op_ok o = true) ex_ops /\
+  fst (run (init ex_src) ex_ops) =
+    [OZ 0; OUnit; OZ 1; OL [0; 1]; OUnit; OZ 0; OL [2; 1]; OL [1; 0; 2]; OB true; OZ 3; OIndexError] /\
+  map (fun o => spec (what o) ex_src) ex_ops =
+    [OZ 0; OUnit; OUnit; OL [0; 1]; OUnit; OZ 0; OL [2; 1]; OL [1; 0; 2]; OB true; OZ 3; OIndexError].
+Proof. split; [repeat constructor|]. split; vm_compute; reflexivity. Qed.
+
+(* a step of 0 is outside: the plain list raises ValueError, LazyList reads `step or 1` *)
+Lemma step_zero_differs :
+  fst (step (init [5]) {| target := 0; what := KSlice None None (Some 0) |}) = OL [5] /\
+  spec (KSlice None None (Some 0)) [5] = OValueError.
+Proof. split; vm_compute; reflexivity. Qed.
